@@ -96,7 +96,7 @@ def h_prog(e, mnems, K=None):
 HARNESSES = {"prog": h_prog}
 
 
-def heavy(sk):
+def heavy(sk, strict=False):
     """skeletons whose path count or solver load is far above average (measured): ecall inside a
     possible loop, multiplication feeding control flow, loaded values as jump targets"""
     s = set(sk)
@@ -106,6 +106,8 @@ def heavy(sk):
     if "mul" in s and (s & {"jalr", "beq", "blt", "ecall"}):
         return True
     if (s & {"lw", "lb"}) and "jalr" in s:
+        return True
+    if strict and (s & {"lw", "lb"}) and (s & {"sw", "sb"}) and ctl:
         return True
     return False
 
